@@ -221,7 +221,8 @@ PROPS = {
               'differently seeded failpoint delays (produce up to 2 ms, send up to 2 ms, recv up to 3 ms) and once without. Oracle: the sorted multiset of records equals the union of the records of one '
               'single-file run per file; the H3 log must show exactly one produce_begin/produce_end per eligible path, items == send == recv, a single consumer thread. Fault enumeration: 12 files per tree '
               'are made empty / non-UTF-8 / larger than both size limits / a directory of the same name / a dangling symlink / unreadable (process runs as uid nobody): no record for them, all other records unchanged, output well-formed. '
-              'evaluations = CLI runs over a tree. distinct_nontrivial = distinct interleaving signatures (hash of the (event, path) sequence of the log) actually observed; distinct consume orders are reported too.'),
+              'evaluations = CLI runs over a tree. distinct_nontrivial = distinct interleaving signatures (hash of the (event, path) sequence of the log) actually observed; distinct consume orders are reported too.'
+              ' Additional workloads: a 600-800 (quick) / 1500-3000 (thorough) file tree with a slow consumer (recv failpoint or a stdout reader that starts late; the evidence reports the maximum number of items in flight) and files deleted while the walk is in progress (every other file keeps its records, a vanished file contributes all of its records or none).'),
         floor={'quick': 60, 'thorough': 2000},
         level_text='Every kind of per-file fault is injected in every tree and every run is checked both at the output and in the event log; schedules are sampled (the evidence lists how many distinct interleavings occurred), not enumerated.',
         level_note='Trusted: the hook events (single write(2) per line, emitted around produce/send/recv), the single-file runs as definition of "each file alone". A ThreadSanitizer build of the CLI is part of the thorough plan (DESIGN.md §4).',
